@@ -222,6 +222,47 @@ pub fn h_c02_holding_top() {
 pub fn h_c02_holding_parent() {
     holding(true)
 }
+/// A failing `holding` leaves nothing behind that a later `holding` trips over: history
+/// shadow T in an inner scope; holding fails there; remove the shadow; holding again (succeeds)
+/// — the outer T is put back into the OUTER scope.
+/// @h tier=quick bound="two scopes, four-step history with a failing then a succeeding holding" unwind=5 cost=5 mem=10
+#[cfg_attr(kani, kani::proof)]
+#[cfg_attr(kani, kani::unwind(5))]
+pub fn h_c02_holding_history() {
+    let (a0, a1, x) = (sym::u8(), sym::u8(), sym::u8());
+    let mut reg = StateRegistry::new();
+    reg.insert(A(a0));
+    let mut reg = reg.into_child();
+    reg.insert(A(a1));
+    let mut s: State<'static, TagP> = State::from(reg);
+    let r1 = s.holding::<A>(|t, _rest| {
+        assert!(t.0 == a1, "the innermost state is held");
+        Err(eyre::eyre!("closure fails"))
+    });
+    assert!(r1.is_err(), "the failure is reported");
+    assert!(s.contains_at_top::<A>() && s.try_get_value::<A>().ok() == Some(a1), "and the shadowing state is back in the inner scope");
+    let shadow = s.take::<A>();
+    assert!(shadow.0 == a1, "the shadow is removed");
+    let r2 = s.holding::<A>(|t, rest| {
+        assert!(t.0 == a0 && !rest.contains::<A>(), "now the outer state is held");
+        t.0 = x;
+        Ok(())
+    });
+    assert!(r2.is_ok(), "second holding succeeds");
+    assert!(!s.contains_at_top::<A>(), "the outer state is NOT put into the inner scope");
+    let reg: StateRegistry = s.into();
+    let (parent, top) = reg.into_parent();
+    match parent {
+        Some(p) => {
+            assert!(p.try_get_value::<A>().ok() == Some(x), "the outer state is back in the outer scope, with the modification");
+            std::mem::forget(p);
+        }
+        None => assert!(false, "parent exists"),
+    }
+    vcover!(true, "reached");
+    std::mem::forget(top);
+}
+
 /// @h tier=quick bound="holding a type that is absent is an error and changes nothing" unwind=5 cost=2
 #[cfg_attr(kani, kani::proof)]
 #[cfg_attr(kani, kani::unwind(5))]
